@@ -98,9 +98,11 @@ def _mask_case(args):
     from dclab import kde_contours
     out = []
     cnt = 0
+    marks = []      # (evaluations so far, mask is non-trivial)
     x0, y0 = base_data(n, seed)
     for bits in range(lo, hi):
         mask = np.array([(bits >> i) & 1 for i in range(n)], bool)
+        marks.append((cnt, 0 < int(mask.sum()) < n))
         x, y = x0.copy(), y0.copy()
         for i in np.flatnonzero(~mask):
             x[i], y[i] = POISON[i % len(POISON)]
@@ -272,7 +274,10 @@ def _mask_case(args):
                        if hh not in skip):
                 bad("dclab.statistics:get_statistics",
                     "filter-disabled-not-all-events", f"{v} vs {v2}")
-    return cnt, out
+    marks.append((cnt, False))
+    nt = sum(marks[k + 1][0] - marks[k][0] for k in range(len(marks) - 1)
+             if marks[k][1])
+    return cnt, out, nt
 
 
 def _history_case(args):
@@ -400,10 +405,12 @@ def run(ctx):
                                     for lo in range(0, 36, 3)])
     viols = []
     cnt = 0
-    for c, vs in res:
-        cnt += c
-        viols.extend(vs)
-    cov = {"evaluations": cnt, "distinct_nontrivial": cnt - 2 * len(items),
+    nontriv = 0
+    for r in res:
+        cnt += r[0]
+        viols.extend(r[1])
+        nontriv += r[2] if len(r) > 2 else r[0]
+    cov = {"evaluations": cnt, "distinct_nontrivial": nontriv,
            "masks": total,
            "rule": "all 2^N filter masks (N=9 quick / 10 thorough) on a "
                    "dataset whose excluded events carry poison values "
@@ -411,7 +418,7 @@ def run(ctx):
                    "statistics x 2 features, 3 KDE types x linear/log x "
                    "(event positions, explicit positions), contour grids, "
                    "quantile levels, downsampled scatter for 3 sizes, "
-                   "filters disabled; non-trivial = proper selections",
+                   "filters disabled; non-trivial = evaluations under a mask that keeps at least one and excludes at least one event (counted); quantile and history cases count fully",
            "samples": [{"mask": [1, 0, 1, 1, 0, 1]},
                        {"kde": "multivariate", "scale": "log"},
                        {"quantile": 0.95, "n": 200}],
@@ -435,5 +442,5 @@ def replay(case, ctx):
         _, vs = _quantile_case((case["seed"],))
         return vs
     bits = sum(b << i for i, b in enumerate(case["mask"]))
-    _, vs = _mask_case((case["n"], bits, bits + 1, case["seed"]))
+    _, vs, _ = _mask_case((case["n"], bits, bits + 1, case["seed"]))
     return vs
